@@ -102,6 +102,11 @@ std::string payload_for_compressed_size(bool gzip, size_t target, bool* exact) {
 size_t pick_size() {
     // sizes around every internal boundary: 0, 1, S+-1, 4096 (stdio), 5000 (libbz2 read-ahead), 10240 (buffer window), 64 KiB
     static const size_t anchors[] = {0, 1, 2, 100, 4095, 4096, 4097, 4999, 5000, 5001, 9999, 10000, 10239, 10240, 10241, 20480, 65535, 65536, 65537, 200000};
+    // one pick in 150: the shipped 1 MiB output buffer boundary and several MiB
+    if (choose(S_WORK, 150) == 149) {
+        static const size_t big[] = {1048575, 1048576, 1048577, 2097152 + 17, 3 * 1048576};
+        return big[choose(S_WORK, 5)];
+    }
     const uint32_t k = choose(S_WORK, 24);
     if (k < 20) { return anchors[k]; }
     return choose(S_WORK, 30000);
@@ -215,7 +220,7 @@ void run_c09(const std::string& mode) {
     std::vector<size_t> payload_at_boundary;
     for (uint32_t i = 0; i < nstreams; ++i) {
         size_t sz = pick_size();
-        if (nstreams > 1 && sz > 70000) { sz = 70000; }
+        if (nstreams > 1 && sz > 70000 && sz < 1000000) { sz = 70000; }
         if (i > 0 && choose(S_WORK, 6) == 0) { sz = 0; } // empty stream in the middle or at the end
         if (mode != "own" && choose(S_WORK, 10) == 0) {
             // stream that ends exactly on a read-ahead boundary of the layers below
@@ -308,7 +313,9 @@ void run_c09(const std::string& mode) {
     // ---- piece sizes
     static const unsigned long bufsizes[] = {0, 65536, 10240, 5000, 4096, 1000, 100, 17, 3, 1};
     unsigned long bs = bufsizes[choose(sim::S_IO, 10)];
+    if (payload.size() >= 1000000 && choose(sim::S_IO, 2)) { bs = 0; } // MiB-sized payloads mostly with the shipped 1 MiB buffer
     while (bs && payload.size() / bs > 3000) { bs *= 4; }
+    if (payload.size() >= 1000000) { sim::probe(bs == 0 ? "payload of 1 MiB or more read with the shipped 1 MiB buffer" : "payload of 1 MiB or more"); }
     if (payload.size() > 300000 && bs == 0) { bs = 0; } // shipped 1 MiB only for moderately sized payloads: fine
     simfs::Soft soft;
     std::string chunk_desc;
